@@ -7,7 +7,7 @@ from vmm.ref import searchlib as L
 
 ID = 'C13'
 RULE = ('Hypothesis panel x eligibility x parameters without budget and treatment-share constraints (the premise), size / '
-        'geo-ratio / volume-ratio constraints w.p. ~0.45, n_geos_max, n_pretest_max; <=6 geos quick / <=8 thorough. Every greedy '
+        'geo-ratio / volume-ratio constraints w.p. ~0.45, n_geos_max, n_pretest_max; <=6 geos quick / <=8 thorough; a quarter of the cases pin group sizes (<=8 geos, mostly fixed) exactly on the geo-ratio boundary (2:3, 3:4, 3:5, ... with tolerance (l-s)/s). Every greedy '
         'design must lie in the brute-force feasible set (legal over the admitted geos and inside all constraints, band '
         'accepted); best greedy score <= best exhaustive score (1e-9 slack on the last entry); exhaustive [] => greedy []. '
         'Non-trivial = greedy returns >=1 design and (eligibility table non-trivial or a constraint specified); distinct by spec hash.')
@@ -22,13 +22,16 @@ def strategy(tier):
   kw = dict(allow_budget=False, allow_share=False)
   return st.one_of(G.search_spec(max_geos=big, min_geos=2, constraint_p=0.45, **kw),
                    G.search_spec(max_geos=big, min_geos=3, constraint_p=0.3, elig_style='mixed', **kw),
-                   G.search_spec(max_geos=big, min_geos=3, constraint_p=0.3, elig_style='fixed-heavy', **kw))
+                   G.search_spec(max_geos=big, min_geos=3, constraint_p=0.3, elig_style='fixed-heavy', **kw),
+                   G.ratio_boundary_spec(max_geos=8))
 
 
 def run(spec):
   case = L.materialise(spec)
   sp = case.space
   cls = ['geos:%d' % len(sp.geos)]
+  if spec['elig'] and spec['elig'].get('style') == 'ratio-boundary':
+    cls.append('ratio-boundary')
   det = L.describe(case)
   viol = []
   ex = L.run_search(case, 'exhaustive_search', history=spec.get('history'))
